@@ -225,7 +225,9 @@ func (f *Fake) applyLocked(op clientv3.Op, bump bool) (clientv3.OpResponse, []*c
 
 func (f *Fake) txnLocked(cmps []clientv3.Cmp, thens, elses []clientv3.Op) (clientv3.OpResponse, error) {
 	ok := true
-	for _, c := range cmps {
+	for _, cc := range cmps {
+		pc := etcdserverpb.Compare(cc)
+		c := &pc
 		it := f.data[string(c.Key)]
 		var cur int64
 		var curVal []byte
